@@ -57,8 +57,26 @@ fn model_lines(tmpl: usize, msg: &str, prefix: &str, w: usize) -> Vec<String> {
 }
 
 fn style_for(t: usize) -> ProgressStyle {
-    ProgressStyle::with_template(TEMPLATES[t]).unwrap().with_key("custom", |_: &ProgressState, w: &mut dyn Write| {
-        let _ = w.write_str("c\tk");
+    style_for_route(t, t)
+}
+
+fn style_for_route(t: usize, route: usize) -> ProgressStyle {
+    // the custom key's output reaches the writer through every entry point of fmt::Write:
+    // write_str, write_char and write_fmt with a char argument
+    ProgressStyle::with_template(TEMPLATES[t]).unwrap().with_key("custom", move |_: &ProgressState, w: &mut dyn Write| {
+        match route % 3 {
+            0 => {
+                let _ = w.write_str("c\tk");
+            }
+            1 => {
+                for c in "c\tk".chars() {
+                    let _ = w.write_char(c);
+                }
+            }
+            _ => {
+                let _ = write!(w, "c{}k", '\t');
+            }
+        }
     })
 }
 
@@ -79,6 +97,8 @@ fn run_case(seed: u64, idx: u64) -> CaseOut {
     let mut rng = Rng::derive(seed, 16, idx);
     let replay = format!("{seed}:{idx}");
     let in_multi = rng.chance(1, 3);
+    let route = rng.usize(3);
+    let style_for = |t: usize| style_for_route(t, route);
     let spy = SpyTerm::new(200, 100, false);
     spy.enable_log();
     spy.state().snap_on_flush = false;
